@@ -167,8 +167,9 @@ impl<A, C: Clock, F: Filter, R: Rng, S: PtpInstanceStateMutex> Port<'_, InBmca, 
 
         match recommended_state {
             RecommendedState::M1(defaultds) | RecommendedState::M2(defaultds) => {
-                // a slave-only PTP port should never end up in the master state
-                debug_assert!(!default_ds.slave_only);
+                // A slave-only instance also gets this decision once it no longer
+                // hears a master; set_recommended_port_state keeps its ports out of
+                // the master state, the data sets describe the instance itself.
 
                 current_ds.steps_removed = 0;
 
